@@ -3,9 +3,11 @@ package main
 // C12: data generator, renderers (CUE, JSON), exact data comparison, case generator.
 
 import (
+	"bytes"
 	"encoding/json"
 	"fmt"
 	"math/big"
+	"os"
 	"sort"
 	"strconv"
 	"strings"
@@ -68,6 +70,8 @@ func c12CueValue(b *strings.Builder, v any, depth int) {
 			c12CueValue(b, e, depth+1)
 		}
 		b.WriteString("]")
+	case c12Raw:
+		b.WriteString(string(x))
 	case *c12Map:
 		b.WriteString("{")
 		for i, k := range x.Keys {
@@ -266,7 +270,7 @@ var c12Keys2 = []string{"a", "b", "c", "foo", "x1", "a", "b", "a b", "a.b", "a.b
 
 var c12Strings2 = append([]string{"line1\nline2", "line1\nline2\n", "  indented\nnext", "tab\there", "a\rb", "trailing\\", "\"\"\"", "'''", "#\"x\"#", "\\(x)", "\\n",
 	"1979-05-27T07:32:00Z", "07:32:00", "2001-02-03 04:05:06", "1e400", "123456789012345678901234567890", "0.1", "1.10", "-0", "0b1", "0_1",
-	"<a href=\"x\">&amp;</a>", "</script>", " ", "日本語テキスト", "é", "𝒳", "a b", "﻿x", "x﻿", "\x00", "\x01x", "\x7f", "\u0085", "​",
+	"<a href=\"x\">&amp;</a>", "</script>", " ", "日本語テキスト", "é", "𝒳", "a\u00a0b", "\ufeffx", "x\ufeff", "\x00", "\x01x", "\x7f", "\u0085", "\u200b",
 	"...", "...a", "a<<", "\n", "\n\n", "\n a", "? a\rb", "- ", ": ", " #", "long " + strings.Repeat("word ", 30)}, c12Keys2...)
 
 // strings whose YAML / JSON handling is the subject of C11 / C10 (known defects there): the
@@ -501,7 +505,7 @@ func c12GenCase(r *Rng, id int, focus bool) *c12Case {
 			{"toml-int-beyond-int64-as-string", json.Number(Pick(r, c12BigInts))},
 			{"toml-min-int64-as-string", json.Number("-9223372036854775808")},
 			{"toml-float-rounded-to-float64", json.Number(Pick(r, c12PreciseFloats))},
-			{"toml-float-beyond-float64-as-string", json.Number(Pick(r, c12HugeFloats))},
+			{"toml-float-beyond-float64", json.Number(Pick(r, c12HugeFloats))},
 		})
 		if f.name == "toml-null-dropped" {
 			// null as a LIST element is an error already (expected); as a field it is dropped
@@ -518,4 +522,36 @@ func c12GenCase(r *Rng, id int, focus bool) *c12Case {
 func init() {
 	// c12Raw values are written verbatim by the CUE renderer
 	_ = sort.Strings
+}
+
+// c12Witnesses replays fixed documents on the CLI: the Lean counterexample of
+// C12_toml_sem_false, the stale-pointer panic, and TOML date/time values.
+func c12Witnesses(rn *c12Runner) {
+	c := rn.c
+	dir := rn.env.scratch + "/witness"
+	if err := os.MkdirAll(dir, 0o777); err != nil {
+		return
+	}
+	run := func(name, text string, args ...string) c12Res {
+		os.WriteFile(dir+"/"+name, []byte(text), 0o666)
+		return rn.env.cue(dir, nil, args...)
+	}
+	// 1. `a.b = 1` then `[a]`: invalid TOML (a table created by a dotted key is re-opened)
+	w := run("w1.toml", "a.b = 1\n[a]\nc = 2\n", "export", "w1.toml")
+	c.Direct(w.code != 0, "toml-lenient-header-reopens-dotted-table",
+		"cue export accepts the invalid TOML document `a.b = 1 / [a] / c = 2` (witness of C12_toml_sem_false)", map[string]any{"stdout": c12Trunc(w.stdout)})
+	// 2. the stale *openTableArray
+	w = run("w2.toml", "[[a.b]]\n[[a]]\n[[a]]\n", "export", "w2.toml")
+	c.Direct(!bytes.Contains(w.stderr, []byte("panic:")), "toml-decoder-panic-stale-array-pointer",
+		"cue export panics (nil pointer dereference in encoding/toml.Decoder.nextRootNode) on `[[a.b]] / [[a]] / [[a]]`", map[string]any{"stderr": c12Trunc(w.stderr)})
+	// 3. date and time values import as validated strings and export as strings
+	w = run("w3.toml", "a = 1979-05-27T07:32:00Z\nb = 1979-05-27\nc = 07:32:00\nd = 1979-05-27T07:32:00\n", "import", "-f", "w3.toml")
+	ok := w.code == 0
+	if ok {
+		e := rn.env.cue(dir, nil, "export", "w3.cue", "--out", "json")
+		j, err := c12ParseJSON(e.stdout)
+		want := &c12Map{Keys: []string{"a", "b", "c", "d"}, Vals: []any{"1979-05-27T07:32:00Z", "1979-05-27", "07:32:00", "1979-05-27T07:32:00"}}
+		ok = e.code == 0 && err == nil && c12Equal(j, want)
+	}
+	c.Direct(ok, "toml-datetime-import", "TOML date/time values do not survive import + export", map[string]any{"stderr": c12Trunc(w.stderr)})
 }
